@@ -39,6 +39,11 @@ def gen(rng, tier, idx):
     wp['n_leaves'] = rng.choice([2, 3, 4, 5, 6, 8, 10])
     wp['depth'] = rng.choice([1, 2, 2, 3, 3, 4])
     wp['n_genes'] = rng.choice([8, 12, 20, 40])
+    u = rng.random()
+    if u < 0.04:
+        wp['n_genes'] = 300          # gene indices past 2**8
+    elif u < 0.07:
+        wp['n_leaves'] = 24          # 276 pairs: pair indices past 2**8
     src = rng.choice(['synthetic', 'synthetic', 'synthetic', 'stage'])
     syn = {'seed': rng.randrange(2 ** 31), 'density': rng.choice([0.02, 0.1, 0.3, 0.7]),
            'empty_pairs': rng.choice([0.0, 0.2, 0.5]), 'one_sided': rng.choice([0.0, 0.3])}
